@@ -49,10 +49,10 @@ fn run(ctx: &Ctx) {
             types.into_iter().flat_map(move |t| (0..=65535u32).map(move |l| vec![t, (l >> 8) as u8, l as u8, full]))
         },
     );
-    ctx.run_tape("records", records, ctx.pick(10_000, 500_000), 700);
-    ctx.run_tape("hs_header", hs_header, ctx.pick(10_000, 500_000), 200);
-    ctx.run_tape("datagram", datagram, ctx.pick(4_000, 200_000), 1500);
-    ctx.run_tape("frame_raw", frame_raw, ctx.pick(10_000, 400_000), 80);
+    ctx.run_tape("records", records, ctx.pick(50_000, 500_000), 700);
+    ctx.run_tape("hs_header", hs_header, ctx.pick(50_000, 500_000), 200);
+    ctx.run_tape("datagram", datagram, ctx.pick(20_000, 200_000), 1500);
+    ctx.run_tape("frame_raw", frame_raw, ctx.pick(50_000, 400_000), 80);
 }
 
 thread_local! {
